@@ -31,6 +31,9 @@ type Program struct {
 	// first insert of absent k0 triggers a table grow. Mode "shrink": the fill is raised until the
 	// table has grown once, then emptied down to Keep so that deleting hot keys triggers the shrink.
 	Mode string `json:"mode,omitempty"`
+	// Tick: the virtual clock advances by one tick on every read (time passes between the steps
+	// of a call); the model decides liveness by a call's first clock read and stamps by its last.
+	Tick bool `json:"tick,omitempty"`
 
 	effFill, effKeep int
 }
@@ -44,7 +47,7 @@ func (p *Program) keepEff() int {
 
 func (p *Program) Text() string {
 	var sb strings.Builder
-	fmt.Fprintf(&sb, "container: %s; layout seed %#x; hot keys k0..k%d; cold keys %d (of %d filled) mode=%q effective fill %d\n", p.Spec.String(), p.Layout, p.Hot-1, p.Keep, p.Fill, p.Mode, p.effFill)
+	fmt.Fprintf(&sb, "container: %s; layout seed %#x; hot keys k0..k%d; cold keys %d (of %d filled) mode=%q effective fill %d ticking clock=%v\n", p.Spec.String(), p.Layout, p.Hot-1, p.Keep, p.Fill, p.Mode, p.effFill, p.Tick)
 	if len(p.Pre) > 0 {
 		sb.WriteString("prefix:")
 		for _, o := range p.Pre {
